@@ -294,11 +294,13 @@ def ch_pair(ctx, cases=None) -> Channel:
     import segwalk
     from lxml import etree
     ch = Channel("manifest_pair", rule=(
-        "pairs of live manifests (timeline-capable templates x streams bbb, tears, syn1, syn2 x depth/mup/patch "
-        "x start=epoch|year|month|today|explicit) at T1 and T2 = T1 + delta, delta from 1 ms to days (sub-segment, "
-        "one/many update periods, across a loop of the source, a day boundary, the patch ttl; every 8th pair has its window start within the last moments of a source loop, after 0..54321 completed loops); per pair: model "
-        "timelines vs rendered S lists, shared-entry agreement, forward-moving window, publishTime/AST monotone, "
-        "and (patch=1) the real patch applied to the T1 document vs the T2 document; non-trivial = windows "
+        "pairs of live manifests (timeline-capable templates x streams bbb, tears, syn1..syn9 x depth/mup/patch and "
+        "options that must not disturb the timelines x start=epoch|year|month|today|explicit, URL or stored stream "
+        "defaults) at T1 and T2 = T1 + delta, delta from 1 ms to days; fixed classes: loop edge after 0..54321 loops, "
+        "month edge, symbolic roll-over, UTC-offset starts, none-override, drift-patch; a request of another stream "
+        "(with stream defaults for every timing option) between the two clocks; per pair: model timelines vs rendered S "
+        "lists, shared and overlapping entries identical, forward-moving window, publishTime/AST monotone, same-request "
+        "attributes, and (patch=1) the real patch applied to the T1 document vs the T2 document; non-trivial = windows "
         "overlap partially or a patch was applied; distinct by (url, T1, T2)"))
     app = segchecks.get_app()
     client = app.client()
